@@ -159,7 +159,7 @@ pub fn mem_prop(prop: &str) -> &'static str {
 /// Ways of consuming an iterator other than a plain `next()` loop: std adaptor and consumer
 /// methods that an iterator type may override (nth, last, count, fold, ...) or that are built on
 /// such overrides (skip -> nth, step_by -> nth, for_each -> fold, ...).
-pub const STYLES: [&str; 11] = ["next", "nth", "skip", "step_by(2)", "last", "fold", "count", "for_each", "take", "by_ref.nth+rest", "step_by(3)"];
+pub const STYLES: [&str; 15] = ["next", "nth", "skip", "step_by(2)", "last", "fold", "count", "for_each", "take", "by_ref.nth+rest", "step_by(3)", "find", "max_by_key", "reduce", "skip_while+take_while"];
 
 /// Consume `it` in the given style.  Returns the items it yielded, the positions (in the
 /// iterator's own `next()` order) those items must be, and the value of `count()` if that was
@@ -208,6 +208,43 @@ pub fn drive<I: Iterator>(mut it: I, style: usize, j: usize, len0: usize) -> (Ve
                 v.push(x);
             }
             (v, (j..len0).collect(), None)
+        }
+        11 => {
+            // find the j-th item (a searching consumer: try_fold-based in std)
+            let mut c = 0usize;
+            let x = it.find(|_| {
+                c += 1;
+                c - 1 == j
+            });
+            (x.into_iter().collect(), if j < len0 { vec![j] } else { vec![] }, None)
+        }
+        12 => {
+            // the item with the largest running index is the last one
+            let mut c = 0usize;
+            let x = it.max_by_key(|_| {
+                c += 1;
+                c
+            });
+            (x.into_iter().collect(), if len0 > 0 { vec![len0 - 1] } else { vec![] }, None)
+        }
+        13 => {
+            let x = it.reduce(|a, _| a);
+            (x.into_iter().collect(), if len0 > 0 { vec![0] } else { vec![] }, None)
+        }
+        14 => {
+            let mut c = 0usize;
+            let mut d = 0usize;
+            let v: Vec<I::Item> = it
+                .skip_while(|_| {
+                    c += 1;
+                    c <= j
+                })
+                .take_while(|_| {
+                    d += 1;
+                    d <= 2
+                })
+                .collect();
+            (v, all.into_iter().skip(j).take(2).collect(), None)
         }
         _ => {
             let mut v = Vec::new();
